@@ -299,6 +299,9 @@ def write_evidence(run: Run, level: str, extra_cov: dict, violations: int):
         "property_id": run.prop, "tier": run.tier, "seed": run.seed, "level": level, "coverage": cov,
         "assumptions": run.assumptions, "wall_s": round(time.time() - run.t0, 2), "violations": violations,
     }
-    os.makedirs(os.path.join(VERIF, "evidence"), exist_ok=True)
-    with open(os.path.join(VERIF, "evidence", f"{run.prop}.json"), "w") as f:
+    # the evaluation tools (seeded changes, rewrites, mutation sweeps) run the checks against a patched /repo: their
+    # evidence goes to a scratch directory, so that evidence/ only ever holds runs against the tree as it is
+    evdir = os.environ.get("VERIF_EVIDENCE_DIR") or os.path.join(VERIF, "evidence")
+    os.makedirs(evdir, exist_ok=True)
+    with open(os.path.join(evdir, f"{run.prop}.json"), "w") as f:
         json.dump(ev, f, indent=1, default=str)
